@@ -313,6 +313,19 @@ func round6(w *World, r *Report, prop string) {
 	case "C07":
 		r.Rule("R07.13", "no statement kind falls through the argument dispatch: getArgByType has an arm for every kind that has a keyword — its default arm is a panic without position that, through the deferred interning of a nil argument, surfaces as a runtime error which Tree.recover re-raises", 1)
 		r.guard("R07.13", func() { r6ArgByTypeTotal(w, r, "R07.13") })
+	case "C11":
+		r.Rule("R11.13", "a verdict does not depend on what was compiled before: the map-, slice- and struct-valued fields of compile.Compiler and their writers are the reviewed ones (same analysis as R12.10) — a memo keyed by a name that is not unique (two groupings called g) makes the outcome depend on the order in which modules and scopes are visited", 8)
+		r.guard("R11.13", func() { c12CompilerFields(w, r, "R11.13") })
+	case "C12":
+		r.Rule("R12.11", "replacing a `uses` does not disturb the expansion that is under way: no method of parse.node stores into node.children an append onto a re-slice of the current list (elements shifted inside the array Children() handed out)", 1)
+		r.guard("R12.11", func() { r6ChildrenNotEditedInPlace(w, r, "R12.11") })
+		r.Rule("R12.12", "modules are expanded after everything they take groupings from, submodule imports included: in ExpandModules the includes are processed (ProcessModuleIncludes merges a submodule's imports into its module) before the import graph is sorted", 1)
+		r.guard("R12.12", func() { r6IncludesBeforeImportGraph(w, r, "R12.12") })
+	case "C15":
+		r.Rule("R15.13", "every must/when a deviation adds is compiled in the deviating module's scope: deviateAdd.propertyAction attaches the property whenever it is not an extension statement — never depending on what the target already carries (two statements with the same text may resolve their prefixes differently)", 1)
+		r.guard("R15.13", func() { r6DeviateAddAll(w, r, "R15.13") })
+		r.Rule("R15.12", "an expression is compiled for the statement it is written in, every time: the Compiler keeps no table of compiled expressions or programs — its map-, slice- and struct-valued fields and their writers are the reviewed ones (same analysis as R12.10); a program cached by text is reused in a module that binds its prefixes differently", 8)
+		r.guard("R15.12", func() { c12CompilerFields(w, r, "R15.12") })
 	case "C09":
 		r.Rule("R09.13", "a submodule is laid out like a module: node.check runs checkModule and checkRevisionOrder exactly for the statement kinds module and submodule", 2)
 		r.guard("R09.13", func() { r6ModuleChecksBothKinds(w, r, "R09.13") })
@@ -595,4 +608,137 @@ func r6SchemaIdSteps(w *World, r *Report, rule string) {
 		}
 		r.Check(why == "", rule, typ+".Parse keeps empty steps to refuse them", f.Pos(), "strings.Split(arg, \"/\"), every part checked as an identifier", why+": `/a//b`, `/a/b/` and `/` are accepted as schema node identifiers")
 	}
+}
+
+// r6ChildrenNotEditedInPlace (R12.11): the list of children handed out by
+// Children() is never edited in place — no `append(n.children[:i], …)` that
+// shifts elements inside the array a caller may be ranging over.
+func r6ChildrenNotEditedInPlace(w *World, r *Report, rule string) {
+	children := w.Field("parse", "node", "children")
+	n := 0
+	for _, f := range allFuncs(w.SSAPkg("parse")) {
+		if isTestFile(w, f.Pos()) {
+			continue
+		}
+		for _, b := range f.Blocks {
+			for _, in := range b.Instrs {
+				st, ok := in.(*ssa.Store)
+				if !ok {
+					continue
+				}
+				fa, ok := st.Addr.(*ssa.FieldAddr)
+				if !ok || !isFieldAddrOf(fa, children) {
+					continue
+				}
+				n++
+				// the value stored: an append whose first operand is a prefix (or any re-slice) of the current list
+				bad := false
+				var walk func(v ssa.Value, d int)
+				walk = func(v ssa.Value, d int) {
+					if d > 4 {
+						return
+					}
+					switch x := v.(type) {
+					case *ssa.Call:
+						if bi, ok := x.Call.Value.(*ssa.Builtin); ok && bi.Name() == "append" && len(x.Call.Args) >= 1 {
+							if sl, ok := x.Call.Args[0].(*ssa.Slice); ok && (sl.High != nil || sl.Low != nil) {
+								if ld, ok := sl.X.(*ssa.UnOp); ok {
+									if sfa, ok := ld.X.(*ssa.FieldAddr); ok && isFieldAddrOf(sfa, children) {
+										bad = true
+									}
+								}
+							}
+							walk(x.Call.Args[0], d+1)
+						}
+					case *ssa.Phi:
+						for _, e := range x.Edges {
+							walk(e, d+1)
+						}
+					}
+				}
+				walk(st.Val, 0)
+				if bad {
+					r.Fail(rule, funcKey(f)+" edits node.children in place", st.Pos(), "the children are shifted inside the array that Children() handed out: a caller ranging over that list (expandGroupings while it replaces a `uses`) skips the element after the one removed, and a uses nested below it is never expanded")
+				}
+			}
+		}
+	}
+	if n == 0 {
+		panic(undecided{"no store to node.children"})
+	}
+	r.OK(rule, "stores to node.children", token.NoPos, fmt.Sprintf("%d stores looked at: fresh lists or appends at the end", n))
+}
+
+// r6IncludesBeforeImportGraph (R12.12): the imports of submodules are merged into
+// their module before the import graph that orders expansion is built.
+func r6IncludesBeforeImportGraph(w *World, r *Report, rule string) {
+	f := w.SSAFunc(w.Method("compile", "Compiler", "ExpandModules"))
+	pmi := w.SSAFunc(w.Method("compile", "Compiler", "ProcessModuleIncludes"))
+	if f == nil || pmi == nil {
+		panic(undecided{"Compiler.ExpandModules / ProcessModuleIncludes"})
+	}
+	var merges, sorts []ssa.Instruction
+	for _, b := range f.Blocks {
+		for _, in := range b.Instrs {
+			c, ok := in.(*ssa.Call)
+			if !ok || c.Call.StaticCallee() == nil {
+				continue
+			}
+			g := c.Call.StaticCallee()
+			if g == pmi || calleesDeep(g, 2)[pmi] {
+				merges = append(merges, in)
+			}
+			if nm(g) == "Sort" && strings.Contains(g.String(), "tsort") {
+				sorts = append(sorts, in)
+			}
+		}
+	}
+	if len(merges) == 0 || len(sorts) == 0 {
+		panic(undecided{"ExpandModules: include processing / topological sort"})
+	}
+	why := ""
+	for _, s := range sorts {
+		for _, m := range merges {
+			if instrFlowsTo(s, m) {
+				why = "the import graph is sorted before the includes are processed"
+			}
+			if !instrFlowsTo(m, s) {
+				why = "the include processing does not precede the sort of the import graph"
+			}
+		}
+	}
+	r.Check(why == "", rule, "ExpandModules merges includes before ordering the modules", f.Pos(), "ProcessModuleIncludes … then tsort", why+": an import written only in a submodule adds no ordering edge, the using module can be expanded before the library, and nodes of a nested uses keep the library's namespace")
+}
+
+// r6DeviateAddAll (R15.13 / R14.14): deviate add attaches every property it is
+// given, whatever is already on the target.
+func r6DeviateAddAll(w *World, r *Report, rule string) {
+	f := w.SSAFunc(w.Method("compile", "deviateAdd", "propertyAction"))
+	if f == nil {
+		panic(undecided{"compile.deviateAdd.propertyAction"})
+	}
+	_, byName := nodeTypeNames(w)
+	sym := NewSym(w)
+	sym.Expand = false
+	cond := pcZ
+	n := 0
+	for _, b := range f.Blocks {
+		for _, in := range b.Instrs {
+			if c, ok := in.(*ssa.Call); ok && c.Call.IsInvoke() && nm(c.Call.Method) == "AddChildren" {
+				n++
+				cond = pcOrF(cond, sym.PathCond(f.Blocks[0], b, nil))
+			}
+		}
+	}
+	if n == 0 {
+		panic(undecided{"deviateAdd.propertyAction: AddChildren"})
+	}
+	unknown := byName["unknown"]
+	msg := pcCompare(cond, func(a *pcAtom) string {
+		if a.subj != "" && len(unknown) == 1 && a.set.equal(isetOf(unknown[0])) {
+			return "unknown"
+		}
+		return ""
+	}, func(env map[string]bool) bool { return !env["unknown"] })
+	r.Check(msg == "", rule, "deviate add attaches every property", f.Pos(), "AddChildren(property) iff the property is not an extension statement", "whether a property is added depends on more than its kind ("+msg+"): a must (or unique) whose text is already on the target is dropped although it was written in a module that binds its prefixes differently — it is never compiled")
 }
